@@ -1,5 +1,6 @@
 """C04 -- edge list <-> network conversion loses nothing."""
 import copy
+import numbers
 
 from hypothesis import strategies as st
 
@@ -31,18 +32,49 @@ def synthetic(draw, tier):
     # compare by identity (encoded as {"obj": k}; one instance per k and case)
     pool = G.NAME_POOL + [2, "2", None, "None", 0, "0", {"obj": 1}, {"obj": 2}]
     rows = draw(st.lists(st.tuples(v, v, st.sampled_from(pool), st.integers(0, 6)), max_size=15))
-    return {"synthetic": True, "N": N, "jds": jds, "rows": [list(r) for r in rows]}
+    return {"synthetic": True, "N": N, "jds": jds, "rows": [list(r) for r in rows],
+            "debug_logging": draw(st.sampled_from([False, False, False, True]))}
 
 
 def strategy(tier):
-    return st.one_of(synthetic(tier), G.gcm_case(tier, algos=("fast", "motifs")))
+    gen = st.tuples(G.gcm_case(tier, algos=("fast", "motifs")), st.sampled_from([False, False, False, True])).map(
+        lambda t: {**t[0], "debug_logging": t[1]})
+    return st.one_of(synthetic(tier), gen)
+
+
+class debug_logging:
+    """the process has verbose logging switched on (root logger at DEBUG, records discarded): a configuration of the
+    host application, not of the conversion"""
+    def __init__(self, on):
+        self.on = on
+
+    def __enter__(self):
+        import logging
+        if self.on:
+            self.root = logging.getLogger()
+            self.level = self.root.level
+            self.handler = logging.NullHandler()
+            self.root.addHandler(self.handler)
+            self.root.setLevel(logging.DEBUG)
+
+    def __exit__(self, *a):
+        if self.on:
+            self.root.setLevel(self.level)
+            self.root.removeHandler(self.handler)
 
 
 def enumerated(tier, seed):
     """one large generator-produced edge list (300000 rows): block / chunk boundaries of a conversion lie far beyond
     the generated sizes."""
     mo = {"kind": "clique", "m": 2, "edges": [], "ret": "list", "orbit_sizes": [2], "cols": [0], "names": "2-clique"}
-    return [{"algo": "fast", "path": "class", "N": 150000, "big": 4, "motifs": [mo], "rng": {"mode": "seed", "seed": seed}}]
+    out = [{"algo": "fast", "path": "class", "N": 150000, "big": 4, "motifs": [mo], "rng": {"mode": "seed", "seed": seed}}]
+    # more than 2**20 vertices, a handful of rows whose pairs collide when two labels are packed into one integer
+    # with 16 or 20 bits per label (in either order), or hashed by sum / xor
+    B = 2 ** 20
+    rows = [[0, B + 5, "a", 0], [1, 5, "b", 1], [B + 7, 0, "c", 2], [7, 1, "d", 3], [0, 2 ** 16 + 9, "e", 4], [1, 9, "f", 5],
+            [3, B + 2, "g", 6], [B + 3, 2, "h", 7], [B, B + 1, "i", 8], [B + 1, B + 4, "j", 9]]
+    out.append({"synthetic": True, "N": B + 8, "jds_fill": [1, 0], "rows": rows})
+    return out
 
 
 ENUM_CHUNK = 1
@@ -58,7 +90,7 @@ def check(case):
     from gcmpy import LightWeightEdgeList, EdgeListToNetwork, NetworkToEdgeList, NetworkNames as NN
     if case.get("synthetic"):
         el = LightWeightEdgeList()
-        jds = [tuple(r) for r in case["jds"]]
+        jds = [tuple(r) for r in case["jds"]] if "jds" in case else [tuple(case["jds_fill"])] * case["N"]
         el.joint_degrees = list(jds)
         el.edge_list = [(a, b) for a, b, _, _ in case["rows"]]
         objs = {}
@@ -73,6 +105,8 @@ def check(case):
         el.topologies = [nm(n) for _, _, n, _ in case["rows"]]
         el.motif_id = [i for _, _, _, i in case["rows"]]
         classes = {"synthetic"}
+        if case["N"] > 2 ** 20:
+            classes.add("million_vertices")
     else:
         if case.get("big") and "jds" not in case:
             case = {**case, "jds": [[case["big"]]] * case["N"]}
@@ -82,14 +116,18 @@ def check(case):
         g, cls, el, journal, jds, pristine = G.generate(case)
         classes = {"generated", "algo_" + case["algo"]}
         wf = (len(el.edge_list) == len(el.topologies) == len(el.motif_id)) and all(
-            isinstance(e, (tuple, list)) and len(e) == 2 and all(isinstance(x, int) for x in e) for e in el.edge_list)
+            isinstance(e, (tuple, list)) and len(e) == 2 and all(isinstance(x, numbers.Integral) for x in e) for e in el.edge_list)
         if not wf:
             # malformed generator output is C02's finding; the conversion property is not evaluable on it
             return {"nontrivial": False, "classes": ["malformed_generator_output"]}
     N = len(jds)
     rows = [(tuple(e), n, i) for e, n, i in zip(el.edge_list, el.topologies, el.motif_id)]
     before = (list(el.edge_list), list(el.topologies), list(el.motif_id), list(el.joint_degrees))
-    net = call("forward", EdgeListToNetwork.convert, el)
+    dbg = bool(case.get("debug_logging"))
+    if dbg:
+        classes.add("debug_logging_enabled")
+    with debug_logging(dbg):
+        net = call("forward", EdgeListToNetwork.convert, el)
     if before != (list(el.edge_list), list(el.topologies), list(el.motif_id), list(el.joint_degrees)):
         raise Violation("forward-mutates-input", "the edge list was modified by the conversion")
     Gx = net.G
@@ -125,7 +163,8 @@ def check(case):
         classes.add("isolated_vertex")
     # ---- backward
     snap = snapshot(Gx)
-    back = call("backward", NetworkToEdgeList.convert, net)
+    with debug_logging(dbg):
+        back = call("backward", NetworkToEdgeList.convert, net)
     if snapshot(Gx) != snap:
         raise Violation("backward-mutates-input", "the network was modified by the reverse conversion")
     if [tuple(x) for x in back.joint_degrees] != jds:
@@ -138,7 +177,8 @@ def check(case):
     if got != want:
         raise Violation("bwd-edge-set", f"reverse conversion rows {got} != annotated network edges {want}")
     # ---- round trip
-    net2 = call("roundtrip", EdgeListToNetwork.convert, back)
+    with debug_logging(dbg):
+        net2 = call("roundtrip", EdgeListToNetwork.convert, back)
     if snapshot(net2.G) != snap:
         raise Violation("roundtrip", f"EdgeListToNetwork(NetworkToEdgeList(net)) differs from net: {snapshot(net2.G)} vs {snap}")
     return {"nontrivial": len(rows) >= 1 and N >= 3, "classes": sorted(classes)}
